@@ -48,29 +48,37 @@ Definition gh_ok (x : mem) (gh : ghost) : bool :=
   fail_ok x gh &&
   implb (c_paid gh) (is_claimish (up x)) &&
   implb (c_paid gh) (ust_eqb (dClaimed x) Complete) &&
-  negb (c_paid gh && (c_failed gh || timeout_buried gh)).
+  negb (c_paid gh && (c_failed gh || timeout_buried gh)) &&
+  (* a burial is always the burial of something in a confirmed commitment *)
+  implb (timeout_buried gh) (match d_conf gh with None => false | Some _ => true end).
 
 (** facts that never revert *)
 Definition mono (a b : mem) : bool :=
   implb (ust_eqb (uPre a) Complete) (ust_eqb (uPre b) Complete) &&
   implb (ust_eqb (dClaimed a) Complete) (ust_eqb (dClaimed b) Complete).
 Definition gh_mono (a b : ghost) : bool :=
-  implb (c_paid a) (c_paid b) && implb (c_failed a) (c_failed b) && implb (timeout_buried a) (timeout_buried b).
+  implb (c_paid a) (c_paid b) && implb (c_failed a) (c_failed b) && implb (timeout_buried a) (timeout_buried b) &&
+  match d_conf a with None => true | Some o => match d_conf b with Some o' => Bool.eqb o o' | None => false end end.
 
 Definition all_bool := [true; false].
+Definition all_conf : list (option bool) := [None; Some true; Some false].
 Definition all_ghost : list ghost :=
-  flat_map (fun a => flat_map (fun b => map (fun c => {| c_paid := a; c_failed := b; timeout_buried := c |}) all_bool) all_bool) all_bool.
+  flat_map (fun a => flat_map (fun b => flat_map (fun c => map (fun d =>
+    {| c_paid := a; c_failed := b; timeout_buried := c; d_conf := d |}) all_conf) all_bool) all_bool) all_bool.
 Definition local_labels : list label :=
   [LForward; LFulfil true; LFulfil false; LCommitFulfil true; LCommitFulfil false; LRaaFulfil true; LRaaFulfil false;
-   LFailMsg; LCommitFail; LRaaFail; LCompleteU; LCompleteClaimed; LCompleteForget; LDupBlocker; LFreeDup; LDiscD; LCloseD;
-   LChainPreimage true; LChainPreimage false; LChainTimeout].
+   LFailMsg; LCommitFail; LRaaFail; LCompleteU; LCompleteClaimed; LCompleteForget; LDupBlocker; LFreeDup; LDiscD;
+   LCloseD HolderCurrent true; LCloseD HolderCurrent false; LCloseD HolderPrevious true; LCloseD HolderPrevious false;
+   LCloseD CounterpartyCurrent true; LCloseD CounterpartyCurrent false;
+   LCloseD CounterpartyPrevious true; LCloseD CounterpartyPrevious false;
+   LChainPreimage true; LChainPreimage false; LChainNoOutputBuried; LChainTimeoutSpendBuried].
 
 Definition is_local (l : label) : bool := match l with LPersistMgr | LCrash _ _ _ => false | _ => true end.
 
 Lemma all_ghost_complete gh : In gh all_ghost.
-Proof. destruct gh as [[] [] []]; cbn; tauto. Qed.
+Proof. destruct gh as [[] [] [] [[]|]]; cbn; tauto. Qed.
 Lemma local_labels_complete l : is_local l = true -> In l local_labels.
-Proof. destruct l as [ |[]|[]|[]| | | | | | | | | | |[]| | |lu lc lf]; cbn; intros; try discriminate; tauto. Qed.
+Proof. destruct l as [ |[]|[]|[]| | | | | | | | | |[] []|[]| | | |lu lc lf]; cbn; intros; try discriminate; tauto. Qed.
 
 (** one local step preserves everything, for this memory and every ghost / label *)
 Definition local_ok (x : mem) : bool :=
@@ -105,7 +113,8 @@ Definition restart_ok (s0 : mem) : bool :=
       implb (pure_ok s0 && fail_ok s0 gh &&
              implb eF eU && implb eF eC &&
              implb (ust_eqb (uPre s0) Complete) eU && implb (ust_eqb (dClaimed s0) Complete) eC &&
-             implb (c_paid gh) eC && negb (c_paid gh && (c_failed gh || timeout_buried gh)))
+             implb (c_paid gh) eC && negb (c_paid gh && (c_failed gh || timeout_buried gh)) &&
+             implb (timeout_buried gh) (match d_conf gh with None => false | Some _ => true end))
             (let x' := restart s0 eU eC eF in
              pure_ok x' && gh_ok x' gh && mono s0 x' &&
              implb eU (ust_eqb (uPre x') Complete) && implb eC (ust_eqb (dClaimed x') Complete)))
@@ -125,16 +134,17 @@ Lemma restart_inv s0 gh eU eC eF :
   implb eF eU = true -> implb eF eC = true ->
   implb (ust_eqb (uPre s0) Complete) eU = true -> implb (ust_eqb (dClaimed s0) Complete) eC = true ->
   implb (c_paid gh) eC = true -> negb (c_paid gh && (c_failed gh || timeout_buried gh)) = true ->
+  implb (timeout_buried gh) (match d_conf gh with None => false | Some _ => true end) = true ->
   let x' := restart s0 eU eC eF in
   pure_ok x' = true /\ gh_ok x' gh = true /\ mono s0 x' = true /\
   implb eU (ust_eqb (uPre x') Complete) = true /\ implb eC (ust_eqb (dClaimed x') Complete) = true.
 Proof.
-  intros H1 H2 H3 H4 H5 H6 H7 H8. assert (H := restart_ok_all s0). unfold restart_ok in H.
+  intros H1 H2 H3 H4 H5 H6 H7 H8 H9. assert (H := restart_ok_all s0). unfold restart_ok in H.
   rewrite forallb_forall in H. specialize (H gh (all_ghost_complete gh)).
   rewrite forallb_forall in H. specialize (H eU (all_bool_complete eU)).
   rewrite forallb_forall in H. specialize (H eC (all_bool_complete eC)).
   rewrite forallb_forall in H. specialize (H eF (all_bool_complete eF)).
-  rewrite H1, H2, H3, H4, H5, H6, H7, H8 in H. cbn [andb implb] in H.
+  rewrite H1, H2, H3, H4, H5, H6, H7, H8, H9 in H. cbn [andb implb] in H.
   cbv zeta. rewrite !andb_true_iff in H. tauto.
 Qed.
 
@@ -148,8 +158,8 @@ Proof. repeat split. Qed.
 
 Lemma fail_ok_mono x gh gh' : fail_ok x gh = true -> gh_mono gh gh' = true -> fail_ok x gh' = true.
 Proof.
-  unfold fail_ok, gh_mono. destruct gh as [a b c], gh' as [a' b' c']; cbn.
-  destruct (up_eqb (up x) UFailed), a, b, c, a', b', c'; cbn; intros; try reflexivity; discriminate.
+  unfold fail_ok, gh_mono. destruct gh as [a b c d], gh' as [a' b' c' d']; cbn.
+  destruct (up_eqb (up x) UFailed), a, b, c, a', b', c', d as [[]|], d' as [[]|]; cbn; intros; try reflexivity; discriminate.
 Qed.
 
 Lemma mono_trans a b c : mono a b = true -> mono b c = true -> mono a c = true.
@@ -205,7 +215,9 @@ Proof.
       cbn [step]. destruct (landed_facts s lu lc lf HI') as (F1 & F2 & F3 & F4 & F5).
       assert (HX : negb (c_paid (g s) && (c_failed (g s) || timeout_buried (g s))) = true).
       { unfold gh_ok in Hg. rewrite !andb_true_iff in Hg. tauto. }
-      destruct (restart_inv (snap s) (g s) _ _ _ Hsp Hsf F1 F2 F3 F4 F5 HX) as (R1 & R2 & R3 & _ & _).
+      assert (HY : implb (timeout_buried (g s)) (match d_conf (g s) with None => false | Some _ => true end) = true).
+      { unfold gh_ok in Hg. rewrite !andb_true_iff in Hg. tauto. }
+      destruct (restart_inv (snap s) (g s) _ _ _ Hsp Hsf F1 F2 F3 F4 F5 HX HY) as (R1 & R2 & R3 & _ & _).
       unfold Inv. cbn [Fwd.m Fwd.snap Fwd.g]. repeat split; assumption.
 Qed.
 
@@ -246,7 +258,7 @@ Proof.
   cbv zeta. destruct (reachable_inv ls) as (Hp & Hg & _). split.
   - unfold pure_ok in Hp. rewrite !andb_true_iff in Hp. destruct Hp as (((((_ & H) & _) & _) & _) & _).
     intros Hf. rewrite Hf in H. exact H.
-  - unfold gh_ok in Hg. rewrite !andb_true_iff in Hg. destruct Hg as (((_ & H) & _) & _).
+  - unfold gh_ok in Hg. rewrite !andb_true_iff in Hg. destruct Hg as ((((_ & H) & _) & _) & _).
     intros Hc. rewrite Hc in H. exact H.
 Qed.
 
@@ -262,14 +274,30 @@ Proof.
   cbn. unfold release. cbn. destruct f; reflexivity.
 Qed.
 
-(** an upstream fail exists only if C's failure is irrevocable or the downstream timeout is buried *)
+(** an upstream fail exists only if C's failure is irrevocable, or a commitment of D confirmed and either
+    it has NO output for the HTLC and is buried, or it has one and B's timeout spend of it is buried -
+    classified by what the CONFIRMED transaction contains *)
 Lemma fail_only_when_safe ls :
   let s := run init ls in
-  up (m s) = UFailed -> c_failed (g s) = true \/ timeout_buried (g s) = true.
+  up (m s) = UFailed ->
+  c_failed (g s) = true \/
+  (d_conf (g s) = Some false /\ timeout_buried (g s) = true) \/
+  (d_conf (g s) = Some true /\ timeout_buried (g s) = true).
 Proof.
   cbv zeta. destruct (reachable_inv ls) as (_ & Hg & _). intros Hu.
-  unfold gh_ok, fail_ok in Hg. rewrite !andb_true_iff in Hg. destruct Hg as (((H & _) & _) & _).
-  rewrite Hu in H. cbn in H. apply orb_true_iff in H. exact H.
+  unfold gh_ok, fail_ok in Hg. rewrite !andb_true_iff in Hg. destruct Hg as ((((H & _) & _) & _) & Hc).
+  rewrite Hu in H. cbn in H. apply orb_true_iff in H. destruct H as [H|H]; [left; exact H|].
+  rewrite H in Hc. cbn in Hc. destruct (d_conf (g (run init ls))) as [[]|]; [right; right; auto | right; left; auto | discriminate].
+Qed.
+
+(** the two burial labels are exactly what they say: each fires only for its own kind of confirmed
+    commitment, whichever of the four commitments it is *)
+Lemma burial_needs_matching_output x gh :
+  (fst (lstep x gh LChainNoOutputBuried) <> x -> d_conf gh = Some false) /\
+  (fst (lstep x gh LChainTimeoutSpendBuried) <> x -> d_conf gh = Some true).
+Proof.
+  unfold lstep. destruct (down x), (d_conf gh) as [[]|]; split; intros H; try reflexivity; try (exfalso; apply H; reflexivity);
+    destruct (c_paid gh); try reflexivity; exfalso; apply H; reflexivity.
 Qed.
 
 (** a simple ledger: what B nets on the two links once both are settled *)
@@ -287,7 +315,7 @@ Lemma no_loss ls in_amt out_amt fee :
 Proof.
   intros Hfee. cbv zeta. assert (HI := reachable_inv ls). destruct HI as (Hp & Hg & _).
   assert (Hk := claim_whenever_known ls). cbv zeta in Hk. destruct Hk as (_ & Hk).
-  unfold gh_ok in Hg. rewrite !andb_true_iff in Hg. destruct Hg as (((Hf & _) & _) & Hx).
+  unfold gh_ok in Hg. rewrite !andb_true_iff in Hg. destruct Hg as ((((Hf & _) & _) & Hx) & _).
   set (s := run init ls) in *.
   assert (A : c_paid (g s) = true -> c_failed (g s) = false /\ timeout_buried (g s) = false /\ up (m s) <> UFailed).
   { intros Hc. specialize (Hk Hc). rewrite Hc in Hx.
